@@ -94,6 +94,16 @@ def run(ctx):
             except Exception as e:
                 ctx.issue("violation", f"{spec['cls']}({acls}).fit:{exc_enum(e)}", f"first fit raised {e!r}", desc)
                 continue
+            # use every observer on the first model, so that anything they memoise is in place before the re-fit
+            try:
+                with quiet():
+                    est.map_a2b(np.asarray(est.labels_a))
+                    est.map_a2b(int(np.asarray(est.labels_a)[0]))
+                    est.predict(X[: min(n, 3)])
+                    est.predict_ab(X[: min(n, 3)])
+            except Exception as e:
+                ctx.issue("violation", f"{spec['cls']}({acls}).observers-after-fit:{exc_enum(e)}", repr(e), desc)
+                continue
             calls = [("fit", 0, n)]
             cov.hit("refit-with-other-labels")
         if style == "pfit":
@@ -142,6 +152,12 @@ def run(ctx):
                 continue
             if not np.array_equal(mapped, lb):
                 ctx.issue("violation", f"{spec['cls']}:map_a2b(labels_a)!=targets", f"mapped {mapped.tolist()} targets {lb.tolist()}", rep)
+            try:
+                one = [int(est.map_a2b(int(c))) for c in la.tolist()]
+                if one != [int(cur[int(c)]) for c in la.tolist()]:
+                    ctx.issue("violation", f"{spec['cls']}:map_a2b(scalar)!=map", f"{one} vs map {cur} on {la.tolist()}", rep)
+            except Exception as e:
+                ctx.issue("violation", f"{spec['cls']}.map_a2b(scalar):{exc_enum(e)}", repr(e), rep)
             if not use_artmap and not np.array_equal(lb, y[targets]):
                 ctx.issue("violation", f"{spec['cls']}:labels_b!=y", f"labels_b {lb.tolist()} y {y[targets].tolist()}", rep)
             cov.hit(f"call-checked:{mode}")
